@@ -259,10 +259,17 @@ func init() {
 	}
 
 	// ---- sync ----
-	m["(*sync.Mutex).Lock"] = nop
-	m["(*sync.Mutex).Unlock"] = nop
-	m["(*sync.RWMutex).Lock"] = nop
-	m["(*sync.RWMutex).Unlock"] = nop
+	lock := func(fr *frame, a []Value) Value { fr.w.lockDepth++; return nil }
+	unlock := func(fr *frame, a []Value) Value {
+		if fr.w.lockDepth > 0 {
+			fr.w.lockDepth--
+		}
+		return nil
+	}
+	m["(*sync.Mutex).Lock"] = lock
+	m["(*sync.Mutex).Unlock"] = unlock
+	m["(*sync.RWMutex).Lock"] = lock
+	m["(*sync.RWMutex).Unlock"] = unlock
 	m["(*sync.RWMutex).RLock"] = nop
 	m["(*sync.RWMutex).RUnlock"] = nop
 	m["(*sync.Once).Do"] = func(fr *frame, a []Value) Value {
@@ -273,6 +280,8 @@ func init() {
 		if flag, ok := st[0].(*Opaque); ok && flag.Kind == "once-done" {
 			return nil
 		}
+		w.lockDepth++
+		defer func() { w.lockDepth-- }()
 		w.store(&st[0], &Opaque{Kind: "once-done"})
 		w.call(fr, a[1], nil)
 		return nil
